@@ -66,9 +66,11 @@ def main():
             root = [f.split("=", 1)[1] for f in flags if f.startswith("--root=")]
             d = os.path.join("/verif", root[0] if root else "seeded", keep[0])
             os.makedirs(d, exist_ok=True)
-            shutil.copy(patch, os.path.join(d, "patch.diff"))
-            if demo != "-":
-                shutil.copy(demo, os.path.join(d, "demo.py" if not root else "check.py"))
+            if os.path.abspath(patch) != os.path.abspath(os.path.join(d, "patch.diff")):
+                shutil.copy(patch, os.path.join(d, "patch.diff"))
+            dst_demo = os.path.join(d, "demo.py" if not root else "check.py")
+            if demo != "-" and os.path.abspath(demo) != os.path.abspath(dst_demo):
+                shutil.copy(demo, dst_demo)
             meta = {}
             mp = [f.split("=", 1)[1] for f in flags if f.startswith("--meta=")]
             if mp and os.path.exists(mp[0]):
